@@ -42,6 +42,7 @@ EXPMS = ["eigen", "checked", "pade", "either"]
 L5 = [0.0, 1e-6, 0.1, 1.0, 10.0]
 LEN_PAIRS = [(s, t) for s in L5 for t in L5 if s + t <= 10.0]
 LEN_PAIRS_QUICK = [(0.0, 1e-6), (1e-6, 0.1), (0.1, 1.0), (1.0, 1.0), (0.0, 10.0)]
+LEN_PAIRS_MID = LEN_PAIRS_QUICK + [(0.0, 0.0), (1e-6, 1e-6), (0.1, 0.1), (1.0, 0.1)]
 VALS = [1e-6, 1e-3, 0.1, 1.0, 3.0, 1e3, 1e6]
 PI4 = {"u": [0.25, 0.25, 0.25, 0.25], "g": [0.1, 0.2, 0.3, 0.4], "s": [0.4, 0.1, 0.1, 0.4],
        "k": [0.97, 0.01, 0.01, 0.01], "x": [1e-5, 1e-3, 0.5, 1.0 - 0.5 - 1e-3 - 1e-5],
@@ -341,6 +342,8 @@ def run(fn, prefix, case, expm=None):
     except Exception as e:
         import traceback
         where = traceback.extract_tb(e.__traceback__)[-1]
+        if "/cogent3/" not in where.filename and "/site-packages/" not in where.filename:
+            raise           # raised by the checker's own code: let the harness report a CHECKER-ERROR
         mid = f"/{expm}" if expm else ""
         return ("fail", f"{prefix}{mid}/raises-{type(e).__name__}",
                 f"{case}: {type(e).__name__}: {e} at {where.filename.split('/')[-1]}:{where.name}")
@@ -409,9 +412,11 @@ def expand_pi(spec, keys):
     elif kind == "nuc":          # product of nucleotide probabilities (F1x4)
         m = dict(zip("TCAG", spec[1]))
         v = [math.prod(m[c] for c in k) for k in keys]
-    elif kind == "rand":         # Dirichlet(alpha) from a private seeded stream
-        r = random.Random(spec[1])
-        v = [r.gammavariate(spec[2], 1.0) + 1e-9 for _ in keys]
+    elif kind == "rand":         # Dirichlet(alpha) from a private seeded stream, floored so that every probability
+        r = random.Random(spec[1])    # stays inside the documented (1e-6, 1) bound of motif probabilities
+        v = [r.gammavariate(spec[2], 1.0) for _ in keys]
+        tot = sum(v)
+        v = [max(x / tot, 1e-5) for x in v]
     elif kind == "skew":         # a few states at 1e-5 (still inside the (1e-6, 1) bound), the rest random
         r = random.Random(spec[1])
         v = [r.uniform(0.2, 1.0) for _ in keys]
@@ -472,7 +477,7 @@ def gen_p(tier, seed):
         names = NAMED[mid]["names"]
         for pv in param_vectors(len(names), tier, rnd):
             for pi in pi4_list(mid, tier, rnd):
-                for (s, t) in pairs:
+                for (s, t) in (LEN_PAIRS_MID if tier == "thorough" and len(names) > 2 else pairs):
                     for ex in EXPMS:
                         yield [mid, False, [[n, v] for n, v in zip(names, pv)],
                                ["default"] if pi is None else ["list", pi], s, t, ex]
@@ -963,7 +968,7 @@ BOUNDED = {
                       "_EigenPade.__call__", "FastExponentiator", "CheckedExponentiator", "PadeExponentiator",
                       "EigenExponentiator.__call__", "PredefinedNucleotide.calc_psub_matrix", "calc_TN93_P"],
         "bound": "as rate_matrix (smaller parameter sample) x length pairs (s,t) from {0,1e-6,0.1,1,10}^2 with s+t<=10 "
-                 "on edges a,b and s+t on edge c (quick: 5 pairs) x expm in {eigen, checked, pade, either}; the closed-form "
+                 "on edges a,b and s+t on edge c (all 17 pairs for models with <=2 parameters, 9 for the others; quick: 5) x expm in {eigen, checked, pade, either}; the closed-form "
                  "models JC69/K80/F81/HKY85/TN93 built with rate_matrix_required=False against exp(spec_Q t)",
         "rule": "a case = (model, parameters, motif probabilities, s, t, expm); Q- and P-clauses incl. P == spec_expm(Q,len), "
                 "P(0)=I, P(s)P(t)=P(s+t); non-trivial unless the back-end refused; distinct by case hash",
